@@ -539,3 +539,45 @@ def position_replay(inputs, clause):
 
 
 check_position.replay = position_replay
+
+
+# ------------------------------------------------------------------------------ Fragment.update_span: the span the ejection test reads
+# can_be_yielded and plain-fragment equality read Fragment.span; this is what update_span makes of the mates (code-derived helper
+# contract: inward-facing mates span from the forward mate's start to the reverse mate's end, a single mate spans itself)
+FFR = 'singlecellmultiomics/fragment/fragment.py'
+
+
+def span_fragment(which):
+    def mk(eng, name):
+        def rd(nm):
+            r = stubs.make_read(eng, nm, tags={}, mapped=True, closed=True)
+            eng.assume(z3.And(zterm(r.attrs['reference_start'], INT) >= 0,
+                              zterm(r.attrs['reference_start'], INT) < zterm(r.attrs['reference_end'], INT)))
+            return r
+        r1 = rd('R1') if which in ('both', 'R1') else None
+        r2 = rd('R2') if which in ('both', 'R2') else None
+        eng.spec_env['M1'], eng.spec_env['M2'] = r1, r2
+        return Obj('Fragment', {'reads': [r1, r2]}, info=eng.loader.classref(FFR, 'Fragment'))
+    return mk
+
+
+update_span = Contract(
+    PROP, FFR + '::Fragment.update_span', name='Fragment.update_span',
+    params={'self': span_fragment('both')},
+    cases=[{}, {'self': span_fragment('R1')}, {'self': span_fragment('R2')}],
+    ensures={
+        'inward_facing_mates_span_from_the_forward_start_to_the_reverse_end':
+            'implies(M1 is not None and M2 is not None and M1.is_reverse != M2.is_reverse, self.span == (M1.reference_name, '
+            '(M2.reference_start if M1.is_reverse else M1.reference_start), (M1.reference_end if M1.is_reverse else M2.reference_end)) '
+            'and self.safe_span == True)',
+        'same_strand_mates_span_their_starts':
+            'implies(M1 is not None and M2 is not None and M1.is_reverse == M2.is_reverse, self.span == (M1.reference_name, '
+            'min(M1.reference_start, M2.reference_start), max(M1.reference_start, M2.reference_start)) and self.safe_span == False)',
+        'a_single_mate_spans_itself':
+            'implies(M1 is None or M2 is None, self.span == ((M1 if M1 is not None else M2).reference_name, '
+            '(M1 if M1 is not None else M2).reference_start, (M1 if M1 is not None else M2).reference_end) and self.safe_span == False)',
+    },
+    raises={},
+    assumptions=['mapped records with reference_start < reference_end (pysam record stub)'],
+)
+UNITS.append(update_span)
